@@ -145,12 +145,16 @@ def correspondence(ctx):
         L = ints(list(fac(False)))
         full = label.startswith("stepped") and len(L) in ((1, 5, 10, 12) if ctx.tier == "thorough" or ctx.escalated else (1, 5, 12))
         for q in query_pool(rng, L, full, SPECIAL.get(label, ())):
+            ref = py_query(L, q)
             for mode in MODES:
                 out, _ = run_mode(fac, mode, q)
                 op = "query.fast" if mode == "complete" else "query.gen"
                 reqs.append("%s %s %s" % (op, ilist(L), q_wire(q))); exp.append(out); meta.append((label, mode))
+                if out != ref:        # Python-side reference: judged by the oracle whatever the model says
+                    ctx._c12_bad = getattr(ctx, "_c12_bad", [])
+                    ctx._c12_bad.append((label, L, q, mode, out, ref))
             # the list model itself against CPython lists
-            reqs.append("query.spec %s %s" % (ilist(L), q_wire(q))); exp.append(py_query(L, q)); meta.append((label, "pylist"))
+            reqs.append("query.spec %s %s" % (ilist(L), q_wire(q))); exp.append(ref); meta.append((label, "pylist"))
     got = ctx.driver(reqs)
     for r, e, g, m in zip(reqs, exp, got, meta):
         if e != g:
@@ -170,6 +174,16 @@ def correspondence(ctx):
 def oracle(ctx):
     """every query on the implementation against Python list semantics of list(uncached rule)"""
     rng = ctx.subrng("oracle")
+    # first: what the correspondence ran, against the Python-side reference (impl != model = spec is a failing input)
+    for label, L, q, mode, out, ref in getattr(ctx, "_c12_bad", []):
+        ctx.case((tuple(L), q, mode, "corr"), nontrivial=out.startswith("ok"))
+        ctx.violation("%s on %s (cache %s): implementation %s, list semantics %s" % (q_wire(q), label, mode, out, ref),
+                      {"kind": "query", "L": L, "q": list(q), "mode": mode, "label": label, "origin": "correspondence"}, {"impl": out, "list": ref})
+    try:
+        import props.c11 as c11
+        c11.judge_query_histories(ctx)
+    except Exception as ex:
+        ctx.note("query histories of the correspondence not re-judged: %r" % (ex,))
     fams = rule_family(ctx, rng, ctx.budget(10, 30))
     seeds = [m["input"] for m in ctx.mismatches if isinstance(m.get("input"), dict)]
     if seeds:
@@ -188,19 +202,23 @@ def oracle(ctx):
                 if got != want:
                     ctx.violation("%s on %s (cache %s): implementation %s, list semantics %s" % (q_wire(q), label, mode, got, want),
                                   {"kind": "query", "L": L, "q": list(q), "mode": mode, "label": label}, {"impl": got, "list": want})
-        # histories: random query order on ONE cached object
-        for _ in range(ctx.budget(4, 10)):
-            r = fac(True)
+        # histories: random query order on ONE object, cached or not; every other one starts with a partial query
+        # (index, early exit, abandoned iteration) followed by count() / len-dependent queries
+        for hno in range(ctx.budget(4, 10)):
+            hcache = rng.random() < 0.5
+            r = fac(hcache)
             hist = []
+            import props.c11 as c11
+            script = c11.partial_then_len(rng, L) if hno % 2 == 0 else []
             for _ in range(rng.randint(2, 8)):
-                q = rrlib.random_query(rng, L)
+                q = script.pop(0) if script else rrlib.random_query(rng, L)
                 got, want = impl_query(r, q), py_query(L, q)
                 hist.append(list(q))
                 ctx.case((tuple(L), tuple(map(tuple, hist))), nontrivial=got.startswith("ok"))
                 ctx.count("history_queries")
                 if got != want:
-                    ctx.violation("history %s on cached %s: %s gave %s, list semantics %s" % (hist, label, q_wire(q), got, want),
-                                  {"kind": "history", "L": L, "history": hist, "label": label}, {"impl": got, "list": want})
+                    ctx.violation("history %s on %s (cache=%s): %s gave %s, list semantics %s" % (hist, label, hcache, q_wire(q), got, want),
+                                  {"kind": "history", "L": L, "history": hist, "label": label, "cache": hcache}, {"impl": got, "list": want})
                     break
     oracle_replace(ctx, rng)
     ctx.sample({"L": [0, 3, 6, 9, 12], "q": "sl:-3:-:2", "impl": run_mode(lambda c: rrlib.stepped(5, c, 3), "off", ("sl", -3, None, 2))[0]})
@@ -394,7 +412,7 @@ def replay(ctx, payload):
     if c.get("kind") == "history":
         from dateutil import rrule as R
         L = c["L"]
-        s = R.rruleset(cache=True)
+        s = R.rruleset(cache=c.get("cache", True))
         for x in L:
             s.rdate(rrlib.to_dt(x))
         ok = True
@@ -404,5 +422,8 @@ def replay(ctx, payload):
             print("replay %s: impl=%s list=%s" % (q_wire(q), got, want))
             ok = ok and got == want
         return ok
+    if c.get("kind") == "qhist":
+        import props.c11 as c11
+        return c11.replay(ctx, payload)
     print("replay: unsupported case kind", c.get("kind"))
     return False
